@@ -378,6 +378,9 @@ def make_problems(ctx: Ctx, n: int):
     for i in range(n):
         # every fifth problem is configured with a start symbol other than <start>
         pb = solverun.gen_problem(rng, i, grid=False, allow_start_symbol=True, force_start_symbol=(i % 5 == 4))
+        if i % 25 == 7:
+            # constraints that do not depend on the input at all
+            pb = dict(pb, constraint=rng.choice(["false", "true", "(= 1 2)", "(>= 3 2)", '(= "a" "b")']), origin="closed-constraint")
         g_in = dict(pb["grammar"])
         if pb.get("start_symbol"):
             g_in["<start>"] = [pb["start_symbol"]]
